@@ -107,7 +107,7 @@ async def _main(case, obs, loop, net):
     random.seed(case["rng_seed"])
     c = Cluster(loop, net, n_nodes=cl["nodes"])
     obs.cluster = c
-    c.add_topic("t0", cl["partitions"])
+    c.add_topic("t0", cl["partitions"], leaders=cl.get("leaders"))
     c.txn_coord_node = cl.get("txn_coord", 0) % cl["nodes"]
     c.group_coord_node = cl.get("group_coord", 0) % cl["nodes"]
     if case.get("marker_delays"):
